@@ -75,4 +75,6 @@ Definition thr_valid (mins thr : list (string * Z)) : bool :=
   && ge_opt (t "MUL_FFT_FULL_THRESHOLD") (m "MPN_FFT_MUL_N_MINSIZE") && ge_opt (t "SQR_FFT_FULL_THRESHOLD") (m "MPN_FFT_MUL_N_MINSIZE")
   && ge_opt (t "MUL_FFT_FULL_THRESHOLD") (t "MUL_TOOM8H_THRESHOLD") && ge_opt (t "SQR_FFT_FULL_THRESHOLD") (t "SQR_TOOM8_THRESHOLD")
   (* the two-limbs-at-a-time Hensel division kernels are entered with at least 3 limbs (tune/tuneup.c min_size) *)
-  && ge_opt (t "RSH_DIVREM_HENSEL_QR_1_THRESHOLD") (Some 3) && ge_opt (t "DIVREM_HENSEL_QR_1_THRESHOLD") (Some 2).
+  && ge_opt (t "RSH_DIVREM_HENSEL_QR_1_THRESHOLD") (Some 3) && ge_opt (t "DIVREM_HENSEL_QR_1_THRESHOLD") (Some 2)
+  (* mpz/oddfac_1.c: ASSERT (FAC_DSC_THRESHOLD >= 2 * (ODD_DOUBLEFACTORIAL_TABLE_LIMIT + 2)) - only compiled in tuning builds *)
+  && ge_opt (t "FAC_DSC_THRESHOLD") (match m "ODD_DOUBLEFACTORIAL_TABLE_LIMIT" with Some l => Some (2 * (l + 2))%Z | None => None end).
